@@ -216,11 +216,14 @@ Section Frame.
       + specialize (Hnx (proj2 (tok_reg_wt _ _ Er))). repeat fstep.
       + destruct (tok_label nx) as [nm|] eqn:El; repeat fstep.
     - (* KJumpLinkR *)
-      fstep. eapply fh_bind; [apply fh_get_any; assumption|intros nx st2 Hnx]; cbv beta in Hnx.
+      fstep. eapply fh_bind; [apply fh_peek_any; assumption|intros nx st2 [-> [l0 Hnx]]].
       destruct (tok_reg nx) as [r1|] eqn:Er.
-      + specialize (Hnx (proj2 (tok_reg_wt _ _ Er))). repeat fstep.
+      + eapply fh_bind;
+          [apply (fh_get_known _ nx l0); [exact Hnx|assumption|apply (tok_reg_wt _ _ Er)]|intros ? ? ?].
+        repeat fstep.
       + eapply fh_bind; [apply fh_lift|intros oi st3 [-> Hoi]]. destruct oi as [imm|].
-        * specialize (Hnx (proj2 (tok_imm_wt _ _ Hoi))).
+        * eapply fh_bind;
+            [apply (fh_get_known _ nx l0); [exact Hnx|assumption|apply (tok_imm_wt _ _ Hoi)]|intros ? st3 Hst3].
           eapply fh_bind; [apply fh_peek_any; assumption|intros pk st4 [-> [l Hl]]].
           destruct (is_lparen pk) eqn:Elp.
           -- eapply fh_bind;
@@ -228,7 +231,9 @@ Section Frame.
              repeat fstep.
           -- repeat fstep.
         * destruct (is_lparen nx) eqn:Elp.
-          -- specialize (Hnx (is_lparen_nonl _ Elp)). repeat fstep.
+          -- eapply fh_bind;
+               [apply (fh_get_known _ nx l0); [exact Hnx|assumption|apply is_lparen_nonl; exact Elp]|intros ? ? ?].
+             repeat fstep.
           -- repeat fstep.
     - (* KLoad *)
       fstep. eapply fh_bind; [apply fh_get_any; assumption|intros nx st2 Hnx]; cbv beta in Hnx.
